@@ -107,7 +107,7 @@ def gen_call(lib, k, call):
         if kd == "val":
             A.append(flit(args[n], T))
         elif kd == "fnptr":
-            A.append("vf_cb3")          # bind(C) function of the harness module: i -> 3*i+1
+            A.append(ir.FNPTR_SIGS[p.get("sig", "i")]["cb"])          # bind(C) functions of the harness module
         elif kd in ("implied", "len_hidden"):
             continue
         elif kd in ("cls_cptr", "cls_cref", "cls_ref"):
